@@ -356,16 +356,7 @@ impl<'a> FatView<'a> {
     }
 }
 
-#[derive(Debug, Clone, PartialEq, Eq)]
-pub enum Lfn {
-    /// no long-name slots precede the short entry
-    None,
-    Valid,
-    /// a run precedes but is broken (order, gap, checksum, length, interrupted)
-    Broken(String),
-    /// valid run whose text has non-padding units after the NUL (two readings)
-    Ambiguous,
-}
+pub use crate::lfn::{judge_run, sfn_checksum, short_display, Lfn};
 
 #[derive(Debug, Clone)]
 pub struct DEntry {
@@ -472,41 +463,6 @@ impl<'a> Default for DecodeOpts<'a> {
             max_dirs: 4096,
         }
     }
-}
-
-pub fn sfn_checksum(sfn: &[u8; 11]) -> u8 {
-    let mut s: u8 = 0;
-    for b in sfn {
-        s = (if s & 1 != 0 { 0x80u8 } else { 0 }).wrapping_add(s >> 1).wrapping_add(*b);
-    }
-    s
-}
-
-pub fn short_display(sfn: &[u8; 11], nt: u8) -> String {
-    let mut base: Vec<u8> = sfn[0..8].to_vec();
-    while base.last() == Some(&b' ') {
-        base.pop();
-    }
-    let mut ext: Vec<u8> = sfn[8..11].to_vec();
-    while ext.last() == Some(&b' ') {
-        ext.pop();
-    }
-    if nt & 0x08 != 0 {
-        base.make_ascii_lowercase();
-    }
-    if nt & 0x10 != 0 {
-        ext.make_ascii_lowercase();
-    }
-    if !base.is_empty() && base[0] == 0x05 {
-        base[0] = 0xE5;
-    }
-    let conv = |b: &u8| if *b < 0x80 { *b as char } else { '\u{FFFD}' };
-    let mut s: String = base.iter().map(conv).collect();
-    if !ext.is_empty() {
-        s.push('.');
-        s.extend(ext.iter().map(conv));
-    }
-    s
 }
 
 /// Result of walking one chain.
@@ -688,6 +644,15 @@ impl<'a, 'b> Ctx<'a, 'b> {
                 let pos = [1, 3, 5, 7, 9, 14, 16, 18, 20, 22, 24, 28, 30];
                 for (k, p) in pos.iter().enumerate() {
                     u[k] = le16(s, *p);
+                }
+                // a slot carrying the last-flag starts a new set; pending slots before it are orphans
+                if s[0] & 0x40 != 0 {
+                    orphans.extend(run.iter().map(|r| r.0));
+                    run.clear();
+                } else if run.is_empty() {
+                    orphans.push(i);
+                    i += 1;
+                    continue;
                 }
                 run.push((i, s[0], s[13], u, s[12], le16(s, 26)));
                 i += 1;
@@ -898,72 +863,6 @@ impl<'a, 'b> Ctx<'a, 'b> {
         d.labels = labels;
         d.orphan_lfn_slots = orphans;
     }
-}
-
-/// Long-name state machine of the specification: judge the run of long-name slots that
-/// immediately precedes a short entry.
-pub fn judge_run(
-    run: &[(usize, u8, u8, [u16; 13], u8, u16)],
-    sfn: &[u8; 11],
-) -> (Lfn, Option<Vec<u16>>, Option<Vec<u16>>) {
-    if run.is_empty() {
-        return (Lfn::None, None, None);
-    }
-    let n = run.len();
-    let first = run[0].1;
-    if first & 0x40 == 0 {
-        return (Lfn::Broken("first slot lacks last-flag".into()), None, None);
-    }
-    let idx0 = (first & 0x3F) as usize;
-    if idx0 == 0 || idx0 > 20 {
-        return (Lfn::Broken(format!("index {idx0} out of 1..=20")), None, None);
-    }
-    if idx0 != n {
-        return (Lfn::Broken(format!("run has {n} slots but starts at index {idx0}")), None, None);
-    }
-    let sum = sfn_checksum(sfn);
-    for (k, r) in run.iter().enumerate() {
-        let want = (n - k) as u8;
-        let ord = r.1;
-        if k > 0 && ord & 0x40 != 0 {
-            return (Lfn::Broken("last-flag inside run".into()), None, None);
-        }
-        if ord & 0x3F != want || (ord & 0x80) != 0 {
-            return (Lfn::Broken(format!("slot {k} has order {ord:#x}, expected index {want}")), None, None);
-        }
-        if r.2 != sum {
-            return (Lfn::Broken("checksum mismatch".into()), None, None);
-        }
-    }
-    // assemble units index 1..n
-    let mut units: Vec<u16> = Vec::with_capacity(n * 13);
-    for r in run.iter().rev() {
-        units.extend_from_slice(&r.3);
-    }
-    let nul = units.iter().position(|u| *u == 0);
-    let (name, ambiguous) = match nul {
-        Some(p) => {
-            let rest_ok = units[p + 1..].iter().all(|u| *u == 0xFFFF);
-            // NUL must be in the last (first-stored) slot
-            let in_last = p >= (n - 1) * 13;
-            (units[..p].to_vec(), !(rest_ok && in_last))
-        }
-        None => (units.clone(), false),
-    };
-    if name.is_empty() && !ambiguous {
-        return (Lfn::Broken("empty long name".into()), None, None);
-    }
-    if name.len() > 255 {
-        return (Lfn::Broken(format!("{} units > 255", name.len())), None, None);
-    }
-    if ambiguous {
-        let mut alt = units.clone();
-        while matches!(alt.last(), Some(0) | Some(0xFFFF)) {
-            alt.pop();
-        }
-        return (Lfn::Ambiguous, Some(name), Some(alt));
-    }
-    (Lfn::Valid, Some(name), None)
 }
 
 pub fn decode(dev: &DevState, opts: &DecodeOpts) -> Result<Decoded, String> {
